@@ -52,8 +52,9 @@ ASSUMPTIONS = [
     'key and pivot columns are int / string (no float keys); pivot value lists have no duplicates',
     'math.sqrt is the correctly rounded IEEE-754 square root (= PrimFloat.sqrt)',
     'percentile rows of summary() (approximate by design) are not requested',
-    'aggregates over string columns are limited to count/min/max-free collectors (count, collect_*, first, last, '
-    'countDistinct); min/max/describe of string columns are not modelled',
+    'string columns: count / min / max / collectors / first / last are judged; sum / avg / variance / stddev of a '
+    'string column (TypeError -> null in ColumnStatHelper) are compared with the model only; skewness / kurtosis of a '
+    'string column (TypeError raised by the read-out) and describe() of string columns are not generated',
 ]
 TRUSTED = ['translator/kernels/c14.py (update_moments, merge_moments and the moment read-outs of ColumnStatHelper)',
            'PrimFloat arithmetic and sqrt as the meaning of CPython float arithmetic and math.sqrt',
@@ -175,6 +176,8 @@ def direct(name, rows, cols, exact_order):
     vals = [x for x in allv if x is not None]
     if name == 'count_star':
         return 'eq', len(rows)
+    if col == S and name in NUMERIC:
+        return 'skip', None      # numeric aggregates of a string column: no claim (the implementation yields null)
     if name == 'count':
         return 'eq', len(vals)
     if name == 'countDistinct':
@@ -221,6 +224,8 @@ def direct(name, rows, cols, exact_order):
 
 
 def _cmp(kind, want, got):
+    if kind == 'skip':
+        return True
     if kind == 'eq':
         if isinstance(want, Fraction):
             return got is not None and not isinstance(got, list) and Fraction(got) == want
@@ -454,7 +459,9 @@ def agg_sets(rng, tier):
             return (CODE[name], [], 0)
         if name == 'countDistinct':
             return (CODE[name], rng_.choice([[V], [W], [S], [V, W], [K, S], [S, V]]), 0)
-        if name in NUMERIC or name in ('min', 'max'):
+        if name in ('min', 'max'):
+            return (CODE[name], [rng_.choice([V, W, S, K])], 0)
+        if name in NUMERIC:
             return (CODE[name], [rng_.choice([V, W, V, W, K])], 0)
         return (CODE[name], [rng_.choice([V, W, S, V, W])], 0)
     singles = [[spec(n, rng)] for n in AGG] + [[spec(n, rng)] for n in AGG]
@@ -548,6 +555,17 @@ def generate(rng, tier):
         cases.append((md[0], md[1], md[2], aggs, split(rows, assign, p)))
         if rng.random() < 0.5:
             cases.append((md[0], md[1], md[2], aggs, [rows]))    # the single-partition reference
+    # (3b) the TypeError -> None path of ColumnStatHelper: numeric aggregates over the string column (correspondence
+    #      only, the oracle makes no claim about them), min / max / count of strings (judged)
+    strnames = ['count', 'sum', 'avg', 'min', 'max', 'var_samp', 'var_pop', 'stddev_samp', 'stddev_pop']
+    for i in range(60 if quick else 900):
+        n = rng.randint(1, 6)
+        rows = gen_table(rng, n)
+        p = rng.randint(1, 4)
+        assign = [rng.randrange(p) for _ in range(n)]
+        aggs = [(CODE[rng.choice(strnames)], [S], 0) for _ in range(rng.randint(1, 3))]
+        md = mds[i % len(mds)]
+        cases.append((md[0], md[1], md[2], aggs, split(rows, assign, p)))
     # (4) describe / summary
     for _ in range(80 if quick else 1200):
         n = rng.randint(0, 6)
